@@ -547,3 +547,15 @@ Example ex_trace_graph :
           [("alpha", AFloat 1056964608%Z)] []]
     ["v_scaled_3"; "v_enc.layers.0.Split_2_1"].
 Proof. reflexivity. Qed.
+
+(* hypotheses of names_unique_one_graph / of the name-injectivity theorems are satisfiable *)
+Definition ex_default_trace : list call :=
+  [COp ["enc"] "" "Split" [OVal 0] [("num_outputs", AInt 3%Z)] [] (ODefault 3);
+   COp ["enc"] "" "Split" [OVal 1] [("num_outputs", AInt 2%Z)] [] (ODefault 2);
+   COp [] "" "Add" [OVal 4; OLit lit2] [] [] (ODefault 1);
+   COp ["a.b"] "c18.fn" "scaled" [OVal 6] [] [] (ODefault 1)].
+Example ex_default_trace_ok :
+  straight ex_default_trace = true /\ forallb default_plain_call ex_default_trace = true /\
+  flat_map n_outs (snd (build_state bcfg_pinned ["x"] ex_default_trace)) =
+  ["v_enc.Split_0_0"; "v_enc.Split_0_1"; "v_enc.Split_0_2"; "v_enc.Split_1_0"; "v_enc.Split_1_1"; "v_Add_2"; "v_a.b.scaled_3"].
+Proof. vm_compute. repeat split; reflexivity. Qed.
